@@ -83,8 +83,8 @@ def _progress(expr, cursor, fn):
 
 
 def run(ck):
-    ck.rule("R1", "the allocator cursor strictly advances for every request size, including 0", floor=2)
-    ck.rule("R2", "an address taken from the heap cursor is mapped (same address, requested size) on every path before exit", floor=5)
+    ck.rule("R1", "the allocator cursor strictly advances for every request size, including 0", floor=1)
+    ck.rule("R2", "an address taken from the heap cursor is mapped (same address, requested size) on every path before exit", floor=2)
     ck.rule("R3", "heap.vm_alloc maps what it returns", floor=1)
     _page_length_rules(ck)
     _fresh_address_rules(ck)
@@ -166,7 +166,7 @@ def run(ck):
                 ck.ob("R2", "%s:%s=next_addr(%s)" % (q, var, size), ok, m.where(c),
                       "`%s = ...next_addr(%s)` can reach the end of %s without add_memory_page(%s, ..., <%s bytes>): the returned "
                       "region is not mapped (or smaller than requested)" % (var, size, q, var, size))
-    ck.need(n_sites >= 5, "fewer than 5 direct users of heap.next_addr found (%d)" % n_sites)
+    ck.need(n_sites >= 3, "fewer than 3 direct users of heap.next_addr found (%d)" % n_sites)
 
     # ------------------------------------------------------------------ R3
     fn = cm.func("heap.vm_alloc")
@@ -279,7 +279,8 @@ def _fresh_address_rules(ck):
                         continue
                     n += 1
                     ok = False
-                    for ft in facts.get(nd.id, frozenset()):
+                    from sa.facts import with_bool_temps
+                    for ft in with_bool_temps(facts.get(nd.id, frozenset()), res):
                         if ft[0] == "cmp" and ft[2] == "in" and ft[1] == norm(val):
                             cont = ast.parse(ft[3], mode="eval").body
                             if norm(res.expand_node(cont)).endswith(".get_all_memory()"):
